@@ -52,6 +52,54 @@ def is_call(e, attr, recv=None):
         (recv is None or src(e.func.value) == recv)
 
 
+def statics_table(model, rep, robot, rule):
+    """the 2x2 statics table of Robot (shared by C06 R06.3 and C11 R11.4)"""
+    def M(ci, name):
+        f_ = ci.methods.get(name)
+        if f_ is None:
+            raise AnalysisError('anchor vanished: %s.%s' % (ci.name, name))
+        return f_
+    table = (('staticForces', 'jacobian', False), ('staticForcesInv', 'jacobian', True),
+             ('staticForcesBody', 'jacobianBody', False), ('staticForcesInvBody', 'jacobianBody', True))
+    for name, jac, inverse in table:
+        fi = M(robot, name)
+        arg = fi.params[1]
+        from ..engine import peval as _pe
+        flat = _pe.flatten({n_: f_.node for n_, f_ in robot.methods.items()}, fi.node, depth=2, impure=True)
+        exprs = [n.value for n in ast.walk(flat) if isinstance(n, (ast.Assign, ast.Return)) and n.value is not None]
+        found = None
+        for e in exprs:
+            for sub in ast.walk(e):
+                if isinstance(sub, ast.BinOp) and isinstance(sub.op, ast.MatMult) and src(sub.right) == arg:
+                    found = sub
+        ok, msg = False, 'no `<matrix> @ %s` expression' % arg
+        if found is not None:
+            lasg = {}
+            for n_ in ast.walk(flat):
+                if isinstance(n_, ast.Assign) and len(n_.targets) == 1:
+                    lasg.setdefault(src(n_.targets[0]), []).append(n_.value)
+            L = resolve(found.left, lasg)
+            if inverse:
+                inner = L.args[0] if (isinstance(L, ast.Call) and src(L.func) in ('np.linalg.pinv', 'ling.pinv', 'np.linalg.inv') and L.args) else None
+                if inner is None:
+                    msg = 'inverse statics must apply pinv(J^T); found %s' % src(L)[:60]
+                else:
+                    cut = pinv_cutoff(L)
+                    rep.ob(rule, fi, '%s: pseudo-inverse without truncation' % name, cut is None,
+                           'singular values below %s of the largest are discarded: at a configuration where the Jacobian has full rank but a '
+                           'condition number above the reciprocal of that cut-off, mapping the torques back does not return the wrench' % cut,
+                           line=L.lineno)
+                L = resolve(inner, lasg) if inner is not None else None
+            if L is not None:
+                is_T = isinstance(L, ast.Attribute) and L.attr == 'T'
+                base = L.value if is_T else None
+                ok = bool(is_T and isinstance(base, ast.Call) and isinstance(base.func, ast.Attribute) and base.func.attr == jac
+                          and src(base.func.value) == 'self')
+                if not ok:
+                    msg = '%s must use self.%s(...).T; found %s' % (name, jac, src(L)[:60])
+        rep.ob(rule, fi, '%s: %s(%s(...).T) @ %s' % (name, 'pinv' if inverse else '', jac, arg), ok, msg)
+
+
 def check(model, rep):
     rep.extra['explanation'] = (
         'Typestate for the freshness of the body screw list over all histories, plus structural pairing rules: which screw '
@@ -162,45 +210,7 @@ def check(model, rep):
     # ---------------------------------------------------------------- R06.3
     rep.rule('R06.3', 'statics 2x2 table: forward = J^T @ wrench, inverse = pinv(J^T) @ forces; Body variants use jacobianBody; '
                       'Robot.jacobianBody = Ad(inv(tool pose)) @ jacobian')
-    table = (('staticForces', 'jacobian', False), ('staticForcesInv', 'jacobian', True),
-             ('staticForcesBody', 'jacobianBody', False), ('staticForcesInvBody', 'jacobianBody', True))
-    for name, jac, inverse in table:
-        fi = M(robot, name)
-        arg = fi.params[1]
-        from ..engine import peval as _pe
-        flat = _pe.flatten({n_: f_.node for n_, f_ in robot.methods.items()}, fi.node, depth=2, impure=True)
-        exprs = [n.value for n in ast.walk(flat) if isinstance(n, (ast.Assign, ast.Return)) and n.value is not None]
-        found = None
-        for e in exprs:
-            for sub in ast.walk(e):
-                if isinstance(sub, ast.BinOp) and isinstance(sub.op, ast.MatMult) and src(sub.right) == arg:
-                    found = sub
-        ok, msg = False, 'no `<matrix> @ %s` expression' % arg
-        if found is not None:
-            lasg = {}
-            for n_ in ast.walk(flat):
-                if isinstance(n_, ast.Assign) and len(n_.targets) == 1:
-                    lasg.setdefault(src(n_.targets[0]), []).append(n_.value)
-            L = resolve(found.left, lasg)
-            if inverse:
-                inner = L.args[0] if (isinstance(L, ast.Call) and src(L.func) in ('np.linalg.pinv', 'ling.pinv', 'np.linalg.inv') and L.args) else None
-                if inner is None:
-                    msg = 'inverse statics must apply pinv(J^T); found %s' % src(L)[:60]
-                else:
-                    cut = pinv_cutoff(L)
-                    rep.ob('R06.3', fi, '%s: pseudo-inverse without truncation' % name, cut is None,
-                           'singular values below %s of the largest are discarded: at a configuration where the Jacobian has full rank but a '
-                           'condition number above the reciprocal of that cut-off, mapping the torques back does not return the wrench' % cut,
-                           line=L.lineno)
-                L = resolve(inner, lasg) if inner is not None else None
-            if L is not None:
-                is_T = isinstance(L, ast.Attribute) and L.attr == 'T'
-                base = L.value if is_T else None
-                ok = bool(is_T and isinstance(base, ast.Call) and isinstance(base.func, ast.Attribute) and base.func.attr == jac
-                          and src(base.func.value) == 'self')
-                if not ok:
-                    msg = '%s must use self.%s(...).T; found %s' % (name, jac, src(L)[:60])
-        rep.ob('R06.3', fi, '%s: %s(%s(...).T) @ %s' % (name, 'pinv' if inverse else '', jac, arg), ok, msg)
+    statics_table(model, rep, robot, 'R06.3')
     rjb = M(robot, 'jacobianBody')
     r = returns_of(rjb)
     ok = len(r) == 1 and src(r[0].value).replace(' ', '') == 'self._end_effector_pos_global.inv().adjoint()@self.jacobian(*args,**kwargs)'
